@@ -22,3 +22,4 @@ open Just.Props.C17
 #print axioms length_insertPlaced
 #print axioms length_unsortedOrder
 #print axioms groups_listed_in_name_order
+#print axioms unsorted_lists_in_key_order
